@@ -19,6 +19,8 @@ THEOREMS = [
     "C17.spec_holds",
     "C17.stored_is_concat",
     "C17.printed_is_render",
+    "C17.printed_is_render_closed",
+    "C17.plain_text_any_splitting",
     "C17.printed_independent_of_splitting",
     "C17.nothing_printed_above_level",
     "C17.render_eq_emit",
@@ -145,7 +147,10 @@ def gen_case(rng, params):
 
 
 def run_impl(line):
-    return logimpl.run_case(line)
+    try:
+        return logimpl.run_case(line)
+    except Exception as e:      # raised by the code under test (or a malformed case): an observation, not a crash
+        return f"harness-exception/{type(e).__name__}"
 
 
 def _ev_fields(line):
@@ -260,24 +265,35 @@ def shrink_candidates(line):
             if head[idx] != "0":
                 yield " ".join(["ev"] + head[:idx] + [str(int(head[idx]) - 1)] + head[idx + 1:] + ops)
     else:
+        # (the runner only accepts candidates whose line is shorter)
         n, docs = t[1], t[2:]
         for i in range(len(docs)):
             yield " ".join(["pf", n] + docs[:i] + docs[i + 1:])
+        fields = [d.split("/") for d in docs]
+        total = sum(int(f[1]) for f in fields)
+        for new in (1, 2, 3, 5, 9, 17, 65, 99, 999):
+            if new < int(n):
+                # scale the documents down together with the read size (same number of blocks, <= 3)
+                scaled = []
+                for f in fields:
+                    base = logimpl.base_len(int(f[0]))
+                    k, r = divmod(max(int(f[1]) - base, 0), int(n))
+                    scaled.append("/".join([f[0], str(base + min(k, 3) * new + r % new)] + f[2:]))
+                yield " ".join(["pf", str(new)] + scaled)
+                if total // new < 4000:     # (a decode attempt per block: keep the candidate cheap)
+                    yield " ".join(["pf", str(new)] + docs)
         for i, d in enumerate(docs):
             f = d.split("/")
             base = logimpl.base_len(int(f[0]))
             ln = int(f[1])
-            for new in {base, base + (ln - base) // 2, ln - 1, ln - int(n)}:
+            if len(f) > 2:      # default flavour / seed
+                yield " ".join(["pf", n] + docs[:i] + [f[0] + "/" + f[1]] + docs[i + 1:])
+            cands = [base, base + 1, base + 2, base + int(n), base + 2 * int(n), 99, 100, 999, 1000, 9999, ln // 2, ln - 1]
+            for new in cands:
                 if base <= new < ln:
                     yield " ".join(["pf", n] + docs[:i] + ["/".join([f[0], str(new)] + f[2:])] + docs[i + 1:])
-            if len(f) > 2 and f[2] != "a":
-                yield " ".join(["pf", n] + docs[:i] + ["/".join([f[0], f[1], "a"] + f[3:])] + docs[i + 1:])
-            if len(f[0]) > 1:
+            if len(f[0]) > 1 and "1" not in [x.split("/")[0] for x in docs]:
                 yield " ".join(["pf", n] + docs[:i] + ["/".join(["1", str(ln - len(f[0]) + 1)] + f[2:])] + docs[i + 1:])
-        if int(n) > 1:
-            for new in {int(n) // 2, int(n) - 1}:
-                if new >= 1:
-                    yield " ".join(["pf", str(new)] + docs)
 
 
 def exhaustive(params):
